@@ -46,9 +46,15 @@ def gen_weights(rng, n):
 
 
 class FakeResult:
+    """every field of nestle's Result; the log-likelihoods are NOT ordered like the weights (in a real run the point of
+    greatest likelihood is the last one, the point of greatest weight lies in the bulk of the posterior)"""
     def __init__(self, samples, weights):
         self.samples, self.weights = samples, weights
         self.logz, self.logzerr, self.h = -12.5, 0.3, 2.0
+        n = len(weights)
+        self.niter, self.ncall = n, 3 * n
+        self.logl = np.linspace(-50.0, -1.0, n)
+        self.logvol = -np.arange(1, n + 1) / 5.0
 
     def summary(self):
         return 'recorded result'
